@@ -3,7 +3,7 @@ on the expression sum_z prod_k f_k(x_k)[z] (Coq); (2) implementation against imp
 built-in dynamic losses and the loss terms on a separable network against the same computation on
 its pointwise twin (a PINN evaluating the same function), at every grid index."""
 import itertools, random
-from common import jx, cq, cnat, cbool, clist, write_cases, default_matches_known
+from common import relax, jx, cq, cnat, cbool, clist, write_cases, default_matches_known
 from lossbuild import dy
 from c10 import export_layers, clay, square
 matches_known = default_matches_known
@@ -75,6 +75,7 @@ def vec_ops_vs_twin(rng, n):
     fails = []
     close = lambda a, b: np.allclose(np.asarray(a), np.asarray(b), rtol=1e-9, atol=1e-11)
     for rnd in range(n):
+        relax(1)
         B = [1, 2, 3][rnd % 3]
         for has_t in (False, True):
             s, r = spinn(rng, 3 if has_t else 2, 2, "nonstatio_PDE" if has_t else "statio_PDE"); tw = make_twin(s, has_t)
@@ -109,6 +110,7 @@ def impl_vs_impl(rng, n, residuals_only=False, terms_only=False):
     fails = []
     close = lambda a, b: np.allclose(np.asarray(a), np.asarray(b), rtol=1e-9, atol=1e-11)
     for rnd in range(n):
+        relax(1)
         B = [1, 2, 3][rnd % 3]
         t = jnp.array([[dy(rng, 0, 3) + 0.125 * k] for k in range(B)])
         for name, mk, dx, eqp in [] if terms_only else [
@@ -251,6 +253,7 @@ def generate(tier, seed, casedir, variant):
     cases, meta, viol, samples, dist = [], {}, [], [], {}
     N = 24 if tier == "quick" else 160
     for cid in range(N):
+        relax(10)
         try:
             term, m = op_case(rng, cid)
         except Exception as ex:
